@@ -15,7 +15,7 @@ Explain(e) ==
     LET f == FileOf(e)
         d == Defects(f, e.allow)
     IN [l |-> l, defects |-> d, canon |-> CanonicalDefaults(f),
-        exp |-> IF d = {} THEN AcceptedExp(f, e.allow, (Range(e.want) \cup {"ok"}) \cap DOMAIN e.out) ELSE [ok |-> FALSE],
+        exp |-> IF d = {} THEN AcceptedExp(f, e.allow, (Want(e) \cup {"ok"}) \cap DOMAIN e.out) ELSE [ok |-> FALSE],
         laws |-> IF "snap" \in DOMAIN e.out THEN ViewLaws(e.out.snap) ELSE TRUE]
   ELSE [l |-> l, defects |-> {}, canon |-> TRUE, exp |-> [none |-> TRUE], laws |-> TRUE]
 Next == /\ l <= Len(Trace) /\ l' = l + 1
